@@ -77,6 +77,19 @@ pub proof fn lemma_btree_iter_keys<K: Ord, V>(m: Map<K, V>, rem: Seq<(&K, &V)>)
     vstd::set_lib::lemma_subset_equality(ks.to_set(), m.dom());
 }
 
+// implication form of lemma_refresh_acc_step (lemmas/vspec.rs) for the loop of compute_refreshing_shares: no premise, so the call cannot be
+// the place where a mutant fails
+pub proof fn lemma_refresh_acc_step_imp<C: Ciphersuite>(out: Seq<SecretShare<C>>, vs: Map<Identifier<C>, VerifyingShare<C>>,
+        pk: PublicKeyPackage<C>, ids: Seq<Identifier<C>>, r: Seq<Scalar<C>>, j: int, sh: SecretShare<C>)
+    ensures 0 <= j < ids.len() && ids.no_duplicates() && spec_refresh_acc::<C>(out, vs, pk, ids, r, j) && spec_is_refreshing_share::<C>(sh, ids[j], r)
+        ==> spec_refresh_acc::<C>(out.push(sh), vs.insert(ids[j], VerifyingShare::<C>(SerializableElement(
+            eadd::<C>(gmul::<C>(poly::<AL<C>>(r, ids[j].0.0)), pk.verifying_shares@[ids[j]].0.0)))), pk, ids, r, j + 1)
+{
+    if 0 <= j < ids.len() && ids.no_duplicates() && spec_refresh_acc::<C>(out, vs, pk, ids, r, j) && spec_is_refreshing_share::<C>(sh, ids[j], r) {
+        lemma_refresh_acc_step::<C>(out, vs, pk, ids, r, j, sh);
+    }
+}
+
 // ---------------------------------------------------------------------------------------------------
 // refresh_dkg_part2
 //
